@@ -11,7 +11,19 @@
 //! const h <terminal> | var h <v> | op h add|sub|mul|div|min|max h1 h2
 //! ite h c t e | restrict h f cube   -> unfolded tree of h | err precond
 //! eval h <bits>             -> <terminal>
+//! clone h a | drop a | dropall       -> ok
+//! eq a b                    -> 1 | 0   (oracle C01: equal handles <=> equal value tables)
+//! gc                        -> <inner nodes> <terminals> after the collection (oracles C05: exactly
+//!                              what live handles reach remains, return value = before - after,
+//!                              value tables unchanged, reference counts)
+//! rcchk                     -> ok      (ref_count of every stored node = handles + parent edges)
+//! order v… [seq=1]          -> new level->variable list (oracles C08: value tables unchanged,
+//!                              requested order established, structural audit)
+//! mgr <n> [f64] inner=<k> terms=<k>  -> C14: every line also runs on a manager with these
+//!                              capacities (oracles only; the printed output is the reference's)
 //! ```
+//! Cases named `kf-mtbdd-…` are executed by a child process (`<exe> kf-child`); if it dies the
+//! remaining lines of the case answer `ABORT` and a `crash` failure is reported.
 //!
 //! Oracles (all on the real code, independent of the Lean model): every scalar result is compared
 //! with 128-bit reference arithmetic written from the property text; every diagram result is
@@ -425,7 +437,6 @@ struct Audit {
     nodes: Vec<(u32, String, usize)>,
     /// printed children of every stored inner node
     child_trees: Vec<String>,
-    terminals: usize,
 }
 
 fn audit_rec<M, T: Term>(m: &M) -> Result<Audit, String>
@@ -519,7 +530,7 @@ where
     if count != m.num_terminals() {
         return Err(format!("num_terminals() = {} but the iterator yields {}", m.num_terminals(), count));
     }
-    Ok(Audit { nodes, child_trees, terminals: count })
+    Ok(Audit { nodes, child_trees })
 }
 
 impl<T: Term> MgrState<T> {
